@@ -378,6 +378,49 @@ def hypotheses_met(ctx, trs, n):
         ctx.hyp_met['%s_admissible(of %d in-range states)' % (name.split('_')[0], n)] = ok
 
 
+def agree_stage(ctx, tdir, budget):
+    """Thorough tier, second stage: the interval tiles of coq/C15/thorough/Agree*.v and PropsT.v, under a wall budget.
+    A tile that FAILS is a proof failure; tiles that merely do not finish in the budget leave the _partial theorems
+    unclaimed on this run (recorded in the evidence), which is not a failure."""
+    import glob, shutil
+    P = os.path.join(ctx.build, 'P')
+    files = sorted(glob.glob(os.path.join(tdir, 'Agree*.v')))
+    for f in files + [os.path.join(tdir, 'PropsT.v')]: shutil.copy(f, os.path.join(P, os.path.basename(f)))
+    with open(os.path.join(ctx.build, '_CoqProjectT'), 'w') as f:
+        f.write('-Q %s PTBase\n-Q %s PTModel\n-Q Gen Gen\n-Q P P\n' % (os.path.join(vf.COQDIR, 'Base'), os.path.join(vf.COQDIR, 'Model')))
+        for v in files: f.write('P/%s\n' % os.path.basename(v))
+    t0 = time.time()
+    rc, out = vf.sh('coq_makefile -f _CoqProjectT -o MakefileT 2>&1 && timeout %d make -f MakefileT -j%d -k 2>&1' % (budget, vf.NPROC),
+                    cwd=ctx.build, timeout=budget + 60)
+    ctx.checker_cmds.append('coq_makefile -f _CoqProjectT -o MakefileT && timeout %d make -f MakefileT -j%d  (%d tile files of coq/C15/thorough)' % (budget, vf.NPROC, len(files)))
+    done = [os.path.basename(v) for v in files if os.path.exists(os.path.join(P, os.path.basename(v) + 'o'))]
+    info = {'budget_s': budget, 'wall_s': round(time.time() - t0, 1), 'files': len(files), 'compiled': len(done)}
+    if re.search(r'^Error', out, re.M) or (rc not in (0, 124) and 'Error' in out):
+        ctx._record_make_failure(out, files)
+        info['status'] = 'a tile FAILED'
+        ctx.log('AGREEMENT TILE FAILED')
+    elif len(done) < len(files):
+        info['status'] = 'not finished in %d s: the _partial agreement theorems are not claimed on this run' % budget
+        ctx.log('agreement tiles: %d of %d files compiled in %d s -- _partial theorems not claimed on this run' % (len(done), len(files), budget))
+    else:
+        pt = os.path.join(P, 'PropsT.v')
+        rc2, out2 = vf.sh(['timeout', '600', 'coqc'] + ctx.coq_flags() + [pt], cwd=ctx.build, timeout=630)
+        names, blocks = vf.parse_print_assumptions(open(pt).read(), out2)
+        ctx.checker_cmds.append('coqc -Q ... PropsT.v  (Print Assumptions after every theorem)')
+        if rc2 != 0:
+            ctx.proof_failures.append({'kind': 'proof', 'name': ctx._locate_failure(out2, pt), 'detail': out2[-3000:]})
+            info['status'] = 'PropsT.v FAILED'
+        else:
+            for k, nm in enumerate(names):
+                ax = blocks[k] if k < len(blocks) else None
+                if ax is not None and [a for a in ax if not vf.axiom_allowed(a)]:
+                    ctx.proof_failures.append({'kind': 'gate', 'name': nm, 'detail': 'axioms not on the allow-list'})
+                ctx.theorems.append((nm, ax, 'PropsT.v'))
+            info['status'] = 'all tiles compiled; %d _partial theorems claimed' % len(names)
+            ctx.log('agreement tiles done in %.0f s: %d _partial theorems' % (time.time() - t0, len(names)))
+    ctx.extra['agreement_tiles'] = info
+
+
 def run(ctx):
     warnings.simplefilter('ignore')
     ctx.rule = ('states: liquid 0.01..350 degC from the saturation pressure to 100 MPa, steam 0.01..800 degC below saturation / B23 / 100 MPa '
@@ -401,15 +444,19 @@ def run(ctx):
     tt = translate(ctx)
     ctx.log('translated' if tt is not None else 'translation refused')
     if tt is not None:
-        # thorough tier additionally (coq/C15/thorough/*.v): `admissible` of the single-potential theorems holds at two
-        # concrete states (one interval enclosure per DAG node), and the densities of the two formulations agree on a
-        # stated sub-range (44 interval tiles, PropsT.v: theorems named _partial)
-        extra = sorted(__import__('glob').glob(os.path.join(vf.COQDIR, 'C15', 'thorough', '*.v'))) if ctx.thorough else []
+        # thorough tier additionally (coq/C15/thorough/): (a) Adm*.v, compiled with the main build: `admissible` of the
+        # single-potential theorems holds at two concrete states; (b) Agree*.v + PropsT.v, compiled in a second stage with
+        # its own wall budget (agree_stage): the densities / energies of the two formulations agree on stated sub-ranges
+        # (69 interval tiles).  If the tiles do not finish in the budget (loaded machine) the _partial theorems are NOT
+        # CLAIMED on that run -- the evidence says so -- and the clause stays covered by the sampled oracle only.
+        tdir = os.path.join(vf.COQDIR, 'C15', 'thorough')
+        extra = sorted(__import__('glob').glob(os.path.join(tdir, 'Adm*.v'))) if ctx.thorough else []
         # coqchk (framework, thorough tier) re-checks Interval/Coquelicot for the Props files that import them and does not
-        # finish in the tier's budget: give it 7 minutes per library (a timeout is recorded, not a failure)
-        os.environ.setdefault('VERIF_COQCHK_TIMEOUT', '420')
-        props = ('Props.v', 'PropsR.v', 'PropsS.v', 'Props2.v', 'Props3.v', 'Props4.v', 'Props5.v') + (('PropsT.v',) if ctx.thorough else ())
-        ctx.coq_build(props=props, timeout=1700 if ctx.thorough else 600, extra_files=extra)
+        # finish in the tier's budget: give it 5 minutes per library (a timeout is recorded, not a failure)
+        os.environ.setdefault('VERIF_COQCHK_TIMEOUT', '300')
+        props = ('Props.v', 'PropsR.v', 'PropsS.v', 'Props2.v', 'Props3.v', 'Props4.v', 'Props5.v')
+        built = ctx.coq_build(props=props, timeout=1500 if ctx.thorough else 600, extra_files=extra)
+        if ctx.thorough and built: agree_stage(ctx, tdir, budget=int(os.environ.get('VERIF_C15_TILE_BUDGET', '1000')))
         ctx.log('coq build done: %d theorem(s)' % len([t for t in ctx.theorems if t[1] is not None]))
         try:
             correspond(ctx, tt[2], scale)
